@@ -181,7 +181,7 @@ Definition ex_leaf : list Z :=
 Definition ex_interior : list Z :=
   image 16384 0 [(0, [1; 0; 1; 0; 28; 0; 254; 63; 0; 0; 0; 0; 9; 0; 0; 0]); (16, [107; 49; 0; 0; 7; 0; 0; 0; 254; 63; 2; 0]); (16382, [107; 49])].
 Definition ex_hnsw : list Z :=
-  image 16384 0 [(0, [16]); (16, [1; 0; 68; 0; 253; 63; 1; 0; 0; 0; 185; 63]); (64, [253; 63; 3; 0]); (8189, [7; 8; 9])].
+  image 16384 0 [(0, [16]); (16, [1; 0; 68; 0; 253; 63; 1; 0; 0; 0; 185; 63]); (64, [253; 191; 3; 0]); (16381, [7; 8; 9])].
 Example c23_witness :
   leaf_from_page ex_leaf = Ok tt /\ bytes_ok ex_leaf = true /\
   leaf_key_at ex_leaf 0 = Ok [107; 49] /\ leaf_value_at ex_leaf 0 = Ok [118] /\ leaf_key_at ex_leaf 1 = Err /\
